@@ -20,7 +20,8 @@ RULE = ("WRITE: an instrumented statement generator logs PULL(i) before yielding
         "frame sizes 1..64, logical type FLAT_* or left UNSPECIFIED. From a reference run to the end the reference decoder "
         "gives the row index r_i at which statement i completes. Clause 1: at every PULL(i), i>=2: r_(i-1) - rows already "
         "handed over < frame_size. Clause 2: when the consumer stops after frame j, #PULL == #statements in frames 1..j; no "
-        "PULL before the first frame is requested. The flat_stream_to_file entry points are run against an unbuffered output that "
+        "PULL before the first frame is requested; after stopping (frame iterator closed and dropped) the consumer's next() on ITS "
+        "statement iterator must yield statement #PULL+1 - the unconsumed input is still there. The flat_stream_to_file entry points are run against an unbuffered output that "
         "logs WRITE events on the same clock: the bytes of every complete frame must have reached it before the next statement "
         "is pulled. PARSE: valid delimited streams are delivered through a source that stalls "
         "forever after frame boundary j (every j): a raw non-seekable object, a BufferedReader around it (the documented "
@@ -127,6 +128,21 @@ def write_run(integ: str, cfg: dict, stmts: list, entry: str, stop_after: int | 
         out.append(fr.SerializeToString(deterministic=True))
         if stop_after is not None and j >= stop_after:
             break
+    if stop_after is not None and j >= stop_after:
+        # the consumer is done with the frame iterator (output rotation, a size limit) and goes on using ITS statement
+        # iterator: the statements not consumed so far must still be there
+        import gc
+        if cfg.get("stop_how", "close") == "close" and hasattr(it, "close"):
+            it.close()
+        del it
+        gc.collect()
+        pulled = sum(1 for e in log if e[0] == "PULL")
+        try:
+            next(src)
+            nxt = sum(1 for e in log if e[0] == "PULL")
+        except StopIteration:
+            nxt = None
+        log.append(("RESUME", pulled, nxt))
     return log, out, pulls_before_first_request
 
 
@@ -191,6 +207,15 @@ def check_write(integ: str, cfg: dict, stmts: list, entry: str, ks: list):
             ws.append({"clause": "frames-not-a-prefix", "stop_after": k,
                        "summary": "frames of the interrupted run are not a prefix of the reference run"})
             continue
+        resume = next((e for e in log if e[0] == "RESUME"), None)
+        log = [e for e in log if e[0] != "RESUME"]
+        if resume is not None:
+            log = log[:len(log) - (1 if resume[2] is not None else 0)]        # the PULL made by the resume probe itself
+            if resume[1] < len(stmts) and resume[2] != resume[1] + 1:
+                ws.append({"clause": "input-lost-after-early-stop", "stop_after": k, "pulls": resume[1],
+                           "summary": f"{integ} {entry} phys={cfg['physical']} frame_size={fs}: the consumer stopped after frame {k} "
+                                      f"({resume[1]} of {len(stmts)} statements pulled) and asked ITS statement iterator for the next "
+                                      f"statement: " + ("the iterator is exhausted/closed" if resume[2] is None else f"got statement {resume[2]}")})
         pulls = sum(1 for e in log if e[0] == "PULL")
         want = sum(per_frame_stmts[:k])
         allowed = want + (1 if ends_with_graph_end[k - 1] and want < len(stmts) else 0)
